@@ -20,6 +20,105 @@ fn cmd_byte(c: Command) -> u8 {
     c.into()
 }
 
+/// Session mode: one frame sequence (Settings, SYNs, N small data frames over 1-3 streams, optional
+/// padding frames) is delivered to three real server Sessions — in one write on a roomy, quiet
+/// transport (so that a single read can hold hundreds of frames), in pieces of a seeded size, and
+/// through the case's fragmenting transport. Each must hand every stream exactly the bytes the reference
+/// parser finds, within 5 virtual seconds of the last byte, although nothing else arrives afterwards.
+async fn run_session_receive(plan: &Value) -> Outcome {
+    use crate::sim::content;
+    use anytls_simnet::pipe::PipeCfg;
+    use std::collections::BTreeMap;
+    use std::sync::{Arc, Mutex};
+    use tokio::time::sleep;
+    let mut out = Outcome::ok();
+    let n = plan["frames"].as_u64().unwrap_or(1);
+    let plen = plan["payload"].as_u64().unwrap_or(1) as usize;
+    let ns = std::cmp::max(1, plan["streams"].as_u64().unwrap_or(1)) as u32;
+    let waste = plan["waste_pct"].as_u64().unwrap_or(0);
+    let mut wire = refcodec::encode(refcodec::SETTINGS, 0, b"v=2\nclient=script\npadding-md5=0");
+    for sid in 1..=ns {
+        wire.extend(refcodec::encode(refcodec::SYN, sid, b""));
+    }
+    let mut want: BTreeMap<u32, Vec<u8>> = BTreeMap::new();
+    for i in 0..n {
+        let sid = 1 + (i as u32 % ns);
+        let d = content(0xC03 ^ (i << 12), plen);
+        want.entry(sid).or_default().extend_from_slice(&d);
+        wire.extend(refcodec::encode(refcodec::PSH, sid, &d));
+        if waste > 0 && (i * 7919) % 100 < waste {
+            wire.extend(refcodec::encode(refcodec::WASTE, 0, &vec![0u8; (i % 9) as usize]));
+        }
+    }
+    let quiet = PipeCfg { capacity: 1 << 30, ..PipeCfg::default() };
+    let frag = crate::sim::pipe_cfg_from(&plan["net"]["pipe"]).unwrap_or_default();
+    let piece = std::cmp::max(std::cmp::max(1, plan["piece"].as_u64().unwrap_or(1)) as usize, wire.len() / 400);
+    let mut keep = Vec::new();
+    for (label, cfg, step) in [("whole", quiet.clone(), usize::MAX), ("pieces", quiet.clone(), piece), ("fragmenting-transport", frag, usize::MAX)] {
+        let mut sr = crate::tiera::make_server_raw(crate::tiera::factory("stop=0"), cfg, quiet.clone());
+        let got: Arc<Mutex<BTreeMap<u32, Vec<u8>>>> = Arc::new(Mutex::new(BTreeMap::new()));
+        let mut ns_rx = sr.new_streams;
+        let got2 = got.clone();
+        anytls_simnet::spawn(async move {
+            while let Some(st) = ns_rx.recv().await {
+                let got3 = got2.clone();
+                anytls_simnet::spawn(async move {
+                    let rd = st.reader();
+                    let mut b = vec![0u8; 4096];
+                    loop {
+                        let r = {
+                            let mut g = rd.lock().await;
+                            g.read(&mut b).await
+                        };
+                        match r {
+                            Ok(k) if k > 0 => got3.lock().unwrap().entry(st.id()).or_default().extend_from_slice(&b[..k]),
+                            _ => break,
+                        }
+                    }
+                });
+            }
+        });
+        let mut from_server = sr.from_server;
+        anytls_simnet::spawn(async move {
+            let mut b = vec![0u8; 4096];
+            while matches!(from_server.read(&mut b).await, Ok(k) if k > 0) {}
+        });
+        let mut pos = 0;
+        while pos < wire.len() {
+            let e = std::cmp::min(wire.len(), pos.saturating_add(step));
+            if sr.to_server.write_all(&wire[pos..e]).await.is_err() {
+                break;
+            }
+            let _ = sr.to_server.flush().await;
+            pos = e;
+            if step != usize::MAX {
+                tokio::task::yield_now().await;
+            }
+        }
+        // nothing else arrives; the transport stays open
+        let total: usize = want.values().map(|v| v.len()).sum();
+        let patience = 5_000 + (wire.len() as u64 / 50);
+        let mut waited = 0;
+        while waited < patience && got.lock().unwrap().values().map(|v| v.len()).sum::<usize>() < total {
+            sleep(Duration::from_millis(50)).await;
+            waited += 50;
+        }
+        sleep(Duration::from_millis(100)).await;
+        let g = got.lock().unwrap().clone();
+        let nonempty: BTreeMap<u32, Vec<u8>> = want.iter().filter(|(_, v)| !v.is_empty()).map(|(k, v)| (*k, v.clone())).collect();
+        let g_nonempty: BTreeMap<u32, Vec<u8>> = g.iter().filter(|(_, v)| !v.is_empty()).map(|(k, v)| (*k, v.clone())).collect();
+        if g_nonempty != nonempty {
+            let have: usize = g.values().map(|v| v.len()).sum();
+            out.viol("chunking", format!("session-receive:{}:{}", label, if have < total { "frames-left-undecoded" } else { "streams-differ" }), format!("{} frames of {} payload bytes over {} stream(s), delivery {}: the streams received {} of {} bytes within {} ms of the last byte", n, plen, ns, label, have, total, patience));
+        }
+        keep.push((sr.server, sr.to_server));
+    }
+    anytls_simnet::world::probe_add("c03.session_receive_frames", n);
+    out.nontrivial = n >= 1;
+    out.summary = json!({"mode": "session", "frames": n, "wire_bytes": wire.len()});
+    out
+}
+
 impl Check for C03 {
     fn id(&self) -> &'static str {
         "C03"
@@ -31,8 +130,14 @@ impl Check for C03 {
             150_000
         }
     }
-    fn gen_plan(&self, seed: u64, _idx: u64, _t: bool) -> Value {
+    fn gen_plan(&self, seed: u64, idx: u64, _t: bool) -> Value {
         let mut g = Gen::new(seed, "c03");
+        if idx % 64 == 63 {
+            // the decoder as the session uses it: the same frame sequence delivered whole and in pieces
+            let net = gen_net(&mut g, true, true);
+            return json!({"net": net, "mode": "session", "frames": *g.pick(&[1u64, 10, 127, 128, 129, 130, 200, 300, 1_000]), "payload": *g.pick(&[0u64, 1, 1, 5, 30, 57, 500]),
+                "streams": g.range(1, 3), "waste_pct": *g.pick(&[0u64, 0, 10, 50]), "piece": *g.pick(&[1u64, 7, 8, 100, 400, 8_191, 8_192, 8_193])});
+        }
         let mut net = gen_net(&mut g, true, true);
         net["defer_ppm"] = json!(0);
         let mode = *g.pick(&["frames", "frames", "bytes", "mixed"]);
@@ -73,6 +178,9 @@ impl Check for C03 {
     }
     fn run<'a>(&'a self, plan: &'a Value) -> ScenFut<'a> {
         Box::pin(async move {
+            if plan["mode"] == "session" {
+                return run_session_receive(plan).await;
+            }
             let mut out = Outcome::ok();
             let mut wire: Vec<u8> = Vec::new();
             let mut codec = FrameCodec;
@@ -236,7 +344,7 @@ impl Check for C03 {
         out
     }
     fn rule(&self) -> &'static str {
-        "one case = a seeded sequence of 1-12 items (frames with any of the 256 command bytes, boundary stream ids, lengths 0/1/7/65534/65535/random and attempted lengths above 65535 through the real encoder; or arbitrary byte strings) concatenated and delivered through a simulated pipe with seeded cuts/short writes/latency into the real read_buf+decode loop; non-trivial = at least two frames, or at least one decode attempt on a partially received frame; distinct = distinct (plan hash, poll-order fingerprint)"
+        "1 case in 64 runs the decoder as the session uses it: one frame sequence (Settings, SYNs, 1-1000 data frames of 0-500 bytes over 1-3 streams, optional padding frames) is delivered to three real server Sessions — in one write on a roomy quiet transport (a single read holds hundreds of frames), in pieces of a seeded size, and through the case's fragmenting transport — and every stream must receive exactly the reference parser's bytes within 5 virtual s although nothing else arrives; otherwise one case = a seeded sequence of 1-12 items (frames with any of the 256 command bytes, boundary stream ids, lengths 0/1/7/65534/65535/random and attempted lengths above 65535 through the real encoder; or arbitrary byte strings) concatenated and delivered through a simulated pipe with seeded cuts/short writes/latency into the real read_buf+decode loop; non-trivial = at least two frames, or at least one decode attempt on a partially received frame; distinct = distinct (plan hash, poll-order fingerprint)"
     }
     fn real_components(&self) -> Vec<&'static str> {
         vec!["FrameCodec::encode", "FrameCodec::decode", "Command::from(u8)", "Frame"]
